@@ -152,7 +152,16 @@ def run_case(c: Dict[str, Any]) -> Outcome:
         b.add_middlewares(mw_cls(default_retry_count=c["dflt_count"], default_retry_label=c["dflt_label"], no_result_on_retry=c["nror"]))
         seen: List[Any] = []
 
-        async def t(a: Any, b_: Any = None, c_: Any = None, z: Any = None, ctx: Context = TaskiqDepends()) -> Any:
+        def fresh_token() -> str:
+            tokens.append(len(tokens))
+            return f"tok-{len(tokens)}"
+
+        tokens: List[int] = []
+
+        async def t(a: Any, b_: Any = None, c_: Any = None, z: Any = None, ctx: Context = TaskiqDepends(),
+                    tok: str = TaskiqDepends(fresh_token)) -> Any:
+            if tok != f"tok-{len(tokens)}":
+                stale.append(tok)
             tid = ctx.message.task_id
             outs = calls[int(tid[1:])]["outs"] + ["fail"] * 10
             n = runs.get(tid, 0)
@@ -183,15 +192,24 @@ def run_case(c: Dict[str, Any]) -> Outcome:
                 tm = b.formatter.loads(m.message)
                 tm.parse_labels()
                 msgs.append((m, tm))
-                await r.callback(m.message)
+                try:
+                    await r.callback(m.message)
+                except Exception as exc:  # noqa: BLE001 - the delivery callback is not supposed to raise
+                    cb_errors.append(f"{type(exc).__name__}: {exc}")
             guards.append(guard)
         return runs, saves, seen
 
     msgs: List[Any] = []
     guards: List[int] = []
+    cb_errors: List[str] = []
+    stale: List[str] = []
     runs, saves, seen = asyncio.run(go())
     nontriv = False
     classes: List[str] = [c["codec"]]
+    if stale:
+        out.add("C11.b", f"an attempt received the injected value {stale[0]!r} of an earlier attempt instead of a freshly resolved one")
+    if cb_errors:
+        out.add("C11.a", f"processing a delivery raised {cb_errors[0]} (the re-send of a failed attempt was lost)")
     for n, cl in enumerate(calls):
         tid = f"T{n}"
         execs = runs.get(tid, 0)
@@ -215,6 +233,9 @@ def run_case(c: Dict[str, Any]) -> Outcome:
                 out.add("C11.b", f"{who}attempt received args {short((a, k), 120)}")
                 break
         for k_, (m, tm) in enumerate(my_msgs):
+            if list(tm.args) != ARGS or dict(tm.kwargs) != KW:
+                out.add("C11.b", f"{who}attempt {k_ + 1} was sent with args {short((tm.args, tm.kwargs), 120)}, the call had {short((ARGS, KW), 80)}")
+                break
             for key, val in cl["user"].items():
                 got = tm.labels.get(key, "<missing>")
                 if type(got) is not type(val) or got != val:
